@@ -113,6 +113,10 @@ def nodes() -> list[Any]:
 
 
 NODES = nodes()
+REJECTED = [
+    "(VMixed @first=(VLeaf) -> a @one=$zz)", "(VMixed @first -> c @one -> c)", "(VMixed @items=[(VLeaf) -> b * -> t] @one=(NoSuchClass))",
+    "(VMixed @first=(VLeaf @v -> x) -> f @one=(VLeaf @v=$nope) -> o @items -> i)", "(VMixed @v -> n @first -> deep @one -> mid @items=[$q] -> top)", "(VMixed @first -> h @one -> inner @items -> outer @v -> rest @nope=$undefined)",
+]
 INTERLEAVE = ["(VMixed @first -> zz)", "(* @one)", "(VMixed @items=[* -> qq])", "(VLeaf @v -> ww)"]
 
 
@@ -162,7 +166,8 @@ def make_harness(pats: list[tuple], node_filter=None):
     pool = NODES if node_filter is None else [n for n in NODES if node_filter(n)]
 
     def harness(e):
-        from pyoak.match.pattern import NodeMatcher, validate_pattern
+        import pyoak.match.pattern as P
+        from pyoak.match.pattern import MultiPatternMatcher, NodeMatcher, validate_pattern
 
         reset_all()
         pno = e.choice(len(pats), "pattern")
@@ -170,10 +175,28 @@ def make_harness(pats: list[tuple], node_filter=None):
         text = PR.render(desc)
         nno = e.choice(len(pool), "node")
         node = build(pool[nno])
-        cache = e.pick(["cold", "warm", "interleaved"], "cache_state")
+        cache = e.pick(["cold", "warm", "interleaved", "after-rejected-patterns"], "cache_state")
         scenario: dict[str, Any] = {"node": describe(pool[nno]), "cache_state": cache}
         if cache == "warm":
             NodeMatcher.from_pattern(text)
+        if cache == "after-rejected-patterns":
+            # the pattern compiles from a cold start; then definitions that are rejected after
+            # they registered captures (same capture names as the generated patterns use) are
+            # offered to all three entry points, and the cache is emptied again
+            first, _ = NodeMatcher.from_pattern(text)
+            P._MATCHER_CACHE.clear()
+            for bad in REJECTED:
+                NodeMatcher.from_pattern(bad)
+                validate_pattern(bad)
+                try:
+                    MultiPatternMatcher([("bad", bad)])
+                except Exception:  # noqa: BLE001
+                    pass
+            P._MATCHER_CACHE.clear()
+            again, msg2 = NodeMatcher.from_pattern(text)
+            if (first is None) != (again is None):
+                scenario.update(pattern=text, compiled_cold=first is not None, compiled_after_rejections=again is not None, message=msg2)
+                e.fail("compilation-depends-on-earlier-rejected-patterns", scenario=scenario)
         matcher, msg = NodeMatcher.from_pattern(text)
         if matcher is None:
             # a grammatical pattern that does not compile is C17's subject: counted, not judged
@@ -279,7 +302,7 @@ def spec(tier: str, seed: int) -> Spec:
         families=fams,
         obligation_runners=[_x_runner],
         functions=FUNCTIONS,
-        bounds={"patterns": len(single) + len(multi), "nodes": len(NODES), "cache_states": 3, "nesting_depth": 3, "sequence_lengths": "0-3 with and without tail, tuples 0-4 long", "X": "symbolic int sequences up to 5, strings up to 4"},
+        bounds={"patterns": len(single) + len(multi), "nodes": len(NODES), "cache_states": 4, "nesting_depth": 3, "sequence_lengths": "0-3 with and without tail, tuples 0-4 long", "X": "symbolic int sequences up to 5, strings up to 4"},
         rule="X: one obligation per matcher kernel with reachability twin; P: a case = (pattern, node, cache state) resp. (ordered rules, rules argument, node); non-trivial = pattern matched (counted); distinct by that tuple",
         variables="data: symbolic sequences / ints / strings (X); selectors: pattern, node, cache state, rule order (P)",
         assumptions=["strings are never offered to sequence specs (the statement is silent on str being a Sequence)", "a grammatical pattern that does not compile is counted, not judged (C17 is not applicable)"],
